@@ -6,7 +6,9 @@ reg(Prop(
     [Harness('c09_tree', parts=16, thorough_cfg='asan1'),
      # thorough only: the same harness without sanitizer instrumentation under valgrind memcheck (uninitialised reads and
      # leaks that ASan's red zones do not see), on a reduced number of histories
-     Harness('c09_tree_memcheck', src=['c09_tree.cpp'], cfg='plain', runner='valgrind', tiers=('thorough',), parts=16, args=['--small'])],
+     Harness('c09_tree_memcheck', src=['c09_tree.cpp'], cfg='plain', runner='valgrind', tiers=('thorough',), parts=16, args=['--small']),
+     # thorough only: the same history runners driven by clang libFuzzer (coverage-guided byte strings instead of the PRNG)
+     Harness('c09_tree_fuzz', src=['c09_tree.cpp'], cfg='fuzz', runner='libfuzzer', tiers=('thorough',), parts=16, libs=(), fuzz_runs=20000)],
     rule='A case is one seeded history of up to 40 operations over a forest of 4 individually heap-allocated tree::object<int> roots '
          '(push/pop front/back with values and subtrees, insert, erase position/range, release (+re-attach), clear, sort, value, member and '
          'free swap, copy/move construction from any node, copy/move assignment between any two nodes; operands are chosen among all '
